@@ -354,3 +354,11 @@ func vOnly(ev []vfake.Event, kinds ...string) []vfake.Event {
 	}
 	return out
 }
+
+// The protocol constants of RFC 4861 §10 as the property statements give them:
+// the oracles use their own copies, so a change to CoreRAD's constants shows.
+const (
+	vMaxRADelay            = 500 * time.Millisecond
+	vMaxInitialAdv         = 3
+	vMaxInitialAdvInterval = 16 * time.Second
+)
